@@ -22,7 +22,7 @@ def values_for(name, n, flavour):
     if flavour == "float":
         return [0.25 + i for i in range(n)]
     if flavour == "str":
-        return ["s%s%d" % (name, i) for i in range(n)]
+        return ["s%s%02d" % (name, i) for i in range(n)]
     if flavour == "mixed":
         return values_for(name, n, ["int", "float", "str"][ord(name[0]) % 3])
     raise ValueError(flavour)
@@ -42,7 +42,8 @@ class Concrete(object):
         if cfg.get("dup") and self.grid_names:
             nm = self.grid_names[0]
             self.grid_vals[nm] = list(range(1, cfg["grid"][0] + 1))
-        self.case_vals = {nm: values_for(nm, 4, fl) for nm in self.case_names}
+        ncv = max([4] + [v for c in cfg["cases"] for v in c])
+        self.case_vals = {nm: values_for(nm, ncv, fl) for nm in self.case_names}
         self.fn_args = self.case_names + self.grid_names
         meta = cfg["meta"]
         self.constants = {}
